@@ -56,17 +56,9 @@ func init() {
 			st := w.Notes["c03"].(*c03State)
 			ctx := w.C.Ctx()
 			k := w.C.App.EnterpriseKeeper
-			prev := map[uint64]int{}
-			for _, o := range w.Ent.Orders {
-				prev[o.ID] = o.Status
-			}
-			outcomes, completed := w.Ent.BeginBlock(w.NowUnix(), func(id uint64) int {
-				po, ok := k.GetPurchaseOrder(ctx, id)
-				if !ok {
-					return StNil
-				}
-				return int(po.Status)
-			})
+			// the model's begin-block step (tally and completion) is taken by the executor for every check, so that
+			// order statuses in the model follow the chain in all histories; here its outcomes are judged
+			prev, outcomes, completed := w.EntPrev, w.EntOutcomes, w.EntCompleted
 			for _, oc := range outcomes {
 				po, ok := k.GetPurchaseOrder(ctx, oc.ID)
 				obs := StNil
